@@ -162,6 +162,19 @@ class Sandwich:
                 return
         self.flush()
 
+    def client_send_then_close_notify(self, data: bytes):
+        """The client writes its request and shuts its side of the TLS session down at once (request record(s) and
+        close_notify reach the server in ONE read); it keeps reading what the server sends."""
+        if data:
+            self.client.write(data)
+        try:
+            self.client.unwrap()
+        except ssl.SSLWantReadError:
+            pass
+        except ssl.SSLError as e:
+            self.client_error = repr(e)
+        self.flush()
+
     def drain(self):
         """Read everything currently decryptable; with a bounded pipe, keep making room until dry."""
         while True:
